@@ -1844,6 +1844,7 @@ StorageReflectSession :: CloneDataNodeSubtree(const DataNode & node, const Strin
             const String & nodeName = (*index)[i]()->GetNodeName();
             if (clone->HasChild(nodeName))
             {
+               (void) clone->RemoveIndexEntry(nodeName, this);  // in case the destination node existed already and had this child in its index (it's okay if this fails)
                MRETURN_ON_ERROR(clone->InsertIndexEntryAt(writeIdxCounter++, this, nodeName));
                _indexingPresent = true;  // disable optimization in GetDataCallback()
             }
